@@ -77,12 +77,13 @@ func (r *Report) note(format string, a ...interface{}) {
 }
 
 type Ctx struct {
-	rep   *Report
-	drv   *Driver
-	rng   *rand.Rand
-	quick bool
-	scale int // budget multiplier (escalated search)
-	child string
+	rep       *Report
+	drv       *Driver
+	rng       *rand.Rand
+	askedLstr []int64 // values already handed to Language.String in this run (asked again at the end)
+	quick     bool
+	scale     int // budget multiplier (escalated search)
+	child     string
 }
 
 var props = map[string]func(*Ctx){}
